@@ -44,8 +44,18 @@ def run(ctx: Ctx) -> None:
         f = m.method(cn, mn, own=True)
         loops = [n for n in walk_no_nested(f.node) if isinstance(n, (ast.For, ast.comprehension))]
         ok = False
+        sorted_locals = set()
+        for n in walk_no_nested(f.node):
+            if isinstance(n, ast.Assign) and isinstance(n.targets[0], ast.Name) and isinstance(n.value, ast.Call) \
+                    and isinstance(n.value.func, ast.Name) and n.value.func.id == "sorted" and not n.value.keywords:
+                sorted_locals.add(n.targets[0].id)
+            if isinstance(n, ast.Expr) and isinstance(n.value, ast.Call) and isinstance(n.value.func, ast.Attribute) \
+                    and n.value.func.attr == "sort" and isinstance(n.value.func.value, ast.Name) and not n.value.keywords:
+                sorted_locals.add(n.value.func.value.id)
         for lp in loops:
             it = lp.iter
+            if isinstance(it, ast.Name) and it.id in sorted_locals:
+                ok = True
             if isinstance(it, ast.Call) and isinstance(it.func, ast.Name) and it.func.id == "sorted" and len(it.args) == 1 \
                     and not any(k.arg == "reverse" for k in it.keywords) and not any(k.arg == "key" for k in it.keywords) \
                     and ast.unparse(it.args[0]).endswith(".items()"):
